@@ -256,6 +256,21 @@ inline std::string setter_value(Rng& r, int op) {
   return "";
 }
 
+// another spelling of the host a URL currently has (same IPv6/IPv4 address re-rendered, domain re-cased): setting a host
+// to "itself" takes the "already canonical" shortcuts of the host editors
+inline std::string respell_host(Rng& r, const std::string& hostname) {
+  if (hostname.size() > 2 && hostname[0] == '[' && hostname.back() == ']') {
+    std::array<uint16_t, 8> a;
+    ref::U32 in = ref::utf8_decode(hostname.substr(1, hostname.size() - 2));
+    if (ref::parse_ipv6(in, a)) return "[" + ipv6_spelling(r, a) + "]";
+    return hostname;
+  }
+  unsigned b[4]; char tail = 0;
+  if (sscanf(hostname.c_str(), "%u.%u.%u.%u%c", &b[0], &b[1], &b[2], &b[3], &tail) == 4 && b[0] < 256 && b[1] < 256 && b[2] < 256 && b[3] < 256)
+    return ipv4_spelling(r, (b[0] << 24) | (b[1] << 16) | (b[2] << 8) | b[3], true);
+  return rand_case(r, hostname);
+}
+
 // pool of base URL strings covering every scheme class
 inline const std::vector<std::string>& base_pool() {
   static const std::vector<std::string> v = {
